@@ -413,6 +413,14 @@ func runGCase(gc GCase) (*Fail, []string, map[string]int, error) {
 					return fail("rest|"+op.Str+"|state="+rstate+"|not-advertised-side-effect", fmt.Sprintf("action %s is not advertised in state %s, was refused, but %s", op.Str, rstate, d), "C17"), trace, labels, nil
 				}
 			}
+			if advertised && resp.StatusCode >= 400 {
+				// a valid action that fails (bad argument, name that does not exist, ...)
+				// is refused as well: the replica stays in the state and mode it was in
+				labels["rest:advertised-but-failed"]++
+				if before.State != after.State || before.Mode != after.Mode || before.Chain != after.Chain {
+					return fail("rest|"+op.Str+"|state="+rstate+"|failed-with-side-effect", fmt.Sprintf("action %s was answered %d in state %s, but %s", op.Str, resp.StatusCode, rstate, before.diff(after)), "C17", "C12"), trace, labels, nil
+				}
+			}
 			if op.Str == "setrebuilding" && resp.StatusCode == 200 {
 				rebuilding = true // the body sent is {"rebuilding":true}
 			}
